@@ -72,3 +72,27 @@ class HTTP(BaseComponent):
             from circuits.web.parsers import HttpParser
 
             self._parser = HttpParser(1, True)
+
+    @handler('disconnected')
+    def _on_client_disconnected(self, *args):
+        # The end of the connection ends a response whose length the peer
+        # did not announce (body delimited by closing); anything else that
+        # was in progress is void, and the next connection starts with a
+        # parser of its own.
+        parser = self._parser
+
+        # TODO: This sucks :/ Avoiding the circuit import here :/
+        from circuits.web.parsers import HttpParser
+
+        self._parser = HttpParser(1, True)
+
+        if (
+            parser.is_headers_complete()
+            and not parser.is_message_complete()
+            and not parser.is_chunked()
+            and parser._clen is None
+        ):
+            res = ResponseObject(parser.get_headers(), parser.get_status_code(), parser.get_version())
+            res.body.write(parser.recv_body())
+            res.body.seek(0)
+            self.fire(response(res))
